@@ -94,7 +94,9 @@ def dict_allclose(left, right, rtol=1e-05, atol=1e-08, equal_nan=False):
         elif isinstance(left_value, np.ndarray) and issubclass(
             left_value.dtype.type, _INEXACT_TYPES
         ):
-            is_equal = np.allclose(
+            is_equal = np.shape(left_value) == np.shape(
+                right_value
+            ) and np.allclose(
                 left_value,
                 right_value,
                 rtol=rtol,
